@@ -1889,6 +1889,9 @@ class MainProvider(ResolverMixin, BaseProvider):
         for inst in instance_store.iter_values():
             for prop in inst.properties.values():
                 if prop.type == 'reference':
+                    if prop.value is None:
+                        # NULL reference, cannot match the target
+                        continue
                     # Does this prop instance name match target inst name
                     if prop.value == instname:
                         if result_class:
@@ -1995,6 +1998,9 @@ class MainProvider(ResolverMixin, BaseProvider):
             inst = self._get_bare_instance(ref_path, instance_store)
             for prop in inst.properties.values():
                 if prop.type == 'reference':
+                    if prop.value is None:
+                        # NULL reference, references no associated instance
+                        continue
                     if prop.value == inst_name:
                         if assoc_class \
                                 and inst.classname.lower() not in assoc_classes:
